@@ -28,6 +28,7 @@ structure World where
   held : Array (Array Nat)                      -- client → segment → count
   peeked : Array (Option (List (Nat × Bool)))   -- client → last stats peek (segment, pinned)
   closed : Bool := false
+  expiredBelow : Nat := 0                       -- segments with index < this are past the TTL deadline
   hook : Option (Nat × Nat) := none             -- armed: client, segment
   hookRes : String := ""
   hookD : Option Nat := none                    -- armed: delete segment i while it is being reopened
@@ -217,8 +218,10 @@ def World.op (w : World) (o : String) : World × String :=
       (fun w i => w.call i c (.touch 2)) w ids []
     match r with
     | (w, some tt) =>
-      let w := tt.foldl (fun w i => w.addHeld c i) w
-      (w, "ok:" ++ String.join ((tt.reverse).map toString))
+      -- database.SelectSegments: the TTL filter DecRefs and drops the fully expired ones
+      let (w, kept) := filterLoop (fun w i => w.callHooked i c .decRef) (fun i => i < w.expiredBelow) w tt []
+      let w := kept.foldl (fun w i => w.addHeld c i) w
+      (w, "ok:" ++ String.join ((kept.reverse).map toString))
     | (w, none) =>
       -- report the error of the failing incRef
       let bad := ids.find? fun i => (w.th i c).res == .closedErr || (w.th i c).res == .initErr
@@ -231,6 +234,13 @@ def World.op (w : World) (o : String) : World × String :=
     let (w, l) := ids.foldl (fun (acc : World × List (Nat × Bool)) i =>
       let w := acc.1.call i c .peek
       (w, acc.2 ++ [(i, (w.th i c).flag)])) (w, [])
+    -- TTL filter: as written every expired one is DecRef'ed, pinned or not
+    let (w, l) := l.foldl (fun (acc : World × List (Nat × Bool)) (ip : Nat × Bool) =>
+      if ip.1 < acc.1.expiredBelow then
+        let w := if acc.1.legacy then acc.1.decRefAny c ip.1
+          else if ip.2 then acc.1.callHooked ip.1 c .decRef else acc.1
+        (w, acc.2)
+      else (acc.1, acc.2 ++ [ip])) (w, [])
     let shown := String.join (l.reverse.map fun (i, p) => toString i ++ (if p then "+" else "-"))
     ({ w with peeked := w.peeked.set! c (some l) }, "ok:" ++ shown)
   | ['q', c] =>
@@ -304,6 +314,7 @@ def World.op (w : World) (o : String) : World × String :=
   | ['R'] => ((List.range nClients).foldl (fun w c => w.releaseAll c) w, "ok")
   | ['h', c, i] => ({ w with hook := some (digit c, digit i) }, "ok")
   | ['D', i] => ({ w with hookD := some (digit i) }, "ok")
+  | ['T', j] => if w.closed then (w, "-") else ({ w with expiredBelow := digit j }, "ok")
   | _ => ({ w with broken := true }, "bad-op")
 
 def freshSeg : State :=
@@ -326,6 +337,7 @@ def validOp (k : Nat) (o : String) : Bool :=
   | ['q', c] => dOk c 10
   | ['g', i] | ['x', i] | ['D', i] => dOk i k
   | ['t', j] => dOk j (k + 1)
+  | ['T', j] => dOk j k
   | ['f', i, v] => dOk i k && dOk v 3
   | ['G'] | ['i'] | ['o'] | ['e'] | ['n'] | ['m'] | ['k'] | ['c'] | ['R'] => true
   | _ => false
